@@ -270,7 +270,7 @@ def check(case, rec):
     s_["ctrl"] = np.clip(np.abs(s_["ctrl"]), 0.0, 1.0)
   H.set_data(d, states)
   mjw.forward(m, d)
-  if H.overflow(d).any():
+  if H.overflow_fwd(d).any():
     rec.inconclusive += 1
     return
 
@@ -437,7 +437,7 @@ def _end_to_end(rec, case, mjm, m, states, blocks, usable, Hstep):
   d = H.make_data(mjm, nworld=nworld)
   H.set_data(d, states)
   mjw.step(m, d)
-  if H.overflow(d).any():
+  if H.overflow_fwd(d).any():
     rec.inconclusive += 1
     return
   v1 = d.qvel.numpy().astype(np.float64)
